@@ -5,8 +5,7 @@ TREES = ["single", "unary1", "pair", "pair3", "pairrev", "unarypair", "upath", "
          "twocomp", "path4", "star4"]
 LARGE = ["path5", "tree5", "tern5"]
 CLAUSES = {"EXC", "end_on_non_optimal_assignment"}
-# stability 0: a message is only considered "the same as the previous one" when it is identical (the default 0.1 suppresses
-# messages that differ by less than 10%, an approximation the statement does not ask exactness for)
+# (`stability` keeps its default 0.1: the statement only fixes damping and noise)
 PARAMS = {"damping": 0, "noise": 0}
 
 
@@ -31,11 +30,17 @@ def run(tier):
         plans.append(dict(algo="amaxsum", params=dict(PARAMS, start_messages=sm), props=["endopt"], shapes=shapes,
                           alpha=[0, 1, 2, 4, 8, -4], vcalpha=[0] if sm != "all" else [0, 2, 4], n=3 if quick else 8, scheds=2 if quick else 4,
                           filter=lambda i: i["nopt"] == 1, max_steps=4000, policies=["random", "lag", "starts_first"]))
+    # near ties between costs of the same magnitude: corrections far below the default `stability` of 10% decide the optimum
+    for algo, extra in (("maxsum", dict(stop=stop_sync, max_steps=6000)), ("amaxsum", dict(max_steps=4000))):
+        plans.append(dict(algo=algo, params=dict(PARAMS, start_messages="leafs"), props=["endopt"], shapes=shapes,
+                          alpha=[64, 65, 66, 68, 72, 60], vcalpha=[0], n=2 if quick else 6, scheds=2 if quick else 4,
+                          filter=lambda i: i["nopt"] == 1, policies=["random", "lag", "starts_first"], **extra))
     v = run_algo_check("C05", tier, "model_checking", plans, CLAUSES,
                        nontrivial=lambda vd, m: len(m["inst"]["cons"]) > 0,
                        key_extra=lambda vd, m: {"start_messages": m["params"]["start_messages"]},
                        rule="instances: tree/forest-shaped Gen_Dcop shapes (chains, stars, a ternary factor, unary factors, isolated variables, two "
-                            "components) with tables over {0,1,2,4,8,-4} (dyadic: float arithmetic exact), kept only when TLC finds exactly one optimal "
+                            "components) with tables over {0,1,2,4,8,-4} (dyadic: float arithmetic exact) and over {60,64,65,66,68,72} (near ties: differences far below "
+                            "the default 10% `stability` decide the optimum), kept only when TLC finds exactly one optimal "
                             "assignment; maxsum (synchronous) is run until every computation completed 3*|nodes|+10 rounds, amaxsum until quiescence "
                             "or 4000 deliveries; damping 0, noise 0, all three start_messages modes; at the end of the execution AlgoMon requires the "
                             "selected assignment to be the optimum; non-trivial = at least one constraint")
